@@ -35,6 +35,47 @@ def guard_wait_set_order():
     return True, "WaitSetAsync::wait has the check-all / register-all / await shape mirrored by the waiter steps G, R, P"
 
 
+# every channel operation the C34 schedules treat as ONE atomic step, with the number of critical sections its body
+# must contain (the schedule model is only a model of "every interleaving" under that assumption)
+_ATOMIC_OPS = {
+    "oneshot": {"send": 1, "drop": 1, "poll": 1},
+    "mpsc": {"clone": 1, "drop": 1, "send": 1, "poll": 1, "receive": 0},
+    "notification": {"clone": 1, "notify": 1, "drop": 1, "poll": 1},
+}
+
+
+def guard_one_critical_section_per_operation():
+    """C34 explores sequences of whole channel operations. That equals 'every thread interleaving' only while each
+    operation is a single critical_section::with block. If an operation is split into two sections (or loses its
+    section) the model no longer covers the real interleavings: the check must not pass (exit 3)."""
+    for mod, ops in _ATOMIC_OPS.items():
+        rel = "dds/src/dcps/channels/%s.rs" % mod
+        try:
+            src = _repo_file(rel)
+        except OSError as e:
+            return False, "cannot read %s: %s" % (rel, e)
+        seen = {}
+        for m in re.finditer(r"\n    (?:pub )?(?:async )?fn (\w+)[^{]*\{", src):
+            i = m.end()
+            depth, j = 1, i
+            while depth and j < len(src):
+                depth += {"{": 1, "}": -1}.get(src[j], 0)
+                j += 1
+            seen.setdefault(m.group(1), []).append(src[i:j].count("critical_section::with("))
+        for name, want in ops.items():
+            got = seen.get(name)
+            if got is None:
+                return False, "%s: operation `%s` not found (channel API changed: the schedule harness no longer mirrors it)" % (rel, name)
+            if any(g != want for g in got):
+                return False, ("%s: `%s` contains %s critical_section::with block(s), the schedule model assumes exactly %d "
+                               "(an operation split into several critical sections can be interleaved in between, which the "
+                               "harnesses do not explore)" % (rel, name, got, want))
+        extra = [n for n, c in seen.items() if n not in ops and any(x > 0 for x in c)]
+        if extra:
+            return False, "%s: operation(s) %s use critical sections but are not part of the schedule model" % (rel, extra)
+    return True, "every channel operation is a single critical_section::with block (atomic steps of the schedule model)"
+
+
 prop(
     "C34",
     ready=True,
@@ -90,6 +131,7 @@ prop(
     ],
     timeout={"quick": 600, "thorough": 1500},
     mem_gb=10,
+    guards=[guard_one_critical_section_per_operation],
 )
 
 prop(
